@@ -511,6 +511,28 @@ fn limit_tag(limit: Option<usize>) -> String {
 
 /// Generate and run one case. The sequence of operations is decided while running (how many
 /// bytes can be initialised depends on what is exposed), and recorded.
+/// What a single-buffer read operation hands to the kernel for `buf`: (address, length) of the
+/// READ submission `AsyncFd::read(buf)` queues on a simulated ring. The operations take the pair
+/// through the hidden accessor `BufMut::parts`, not through `parts_mut`: the two must agree.
+fn pair_of_a_read<B: BufMut>(buf: B) -> Option<(usize, usize)> {
+    use crate::simk;
+    simk::configure(simk::SetupConfig::default());
+    let ring = a10::Ring::config().with_submission_queue_size(2).build().ok()?;
+    let ring_fd = simk::with(|s| s.fd);
+    simk::add_fake_fd(1_234_567);
+    let fd = std::mem::ManuallyDrop::new(unsafe { a10::AsyncFd::from_raw_fd(1_234_567, ring.sq()) });
+    let pair = {
+        let mut fut = Box::pin(fd.read(buf));
+        let waker = std::task::Waker::noop();
+        let mut ctx = std::task::Context::from_waker(waker);
+        let _ = std::future::Future::poll(fut.as_mut(), &mut ctx);
+        simk::with(|s| s.pending_sqes().last().map(|q| (q.addr as usize, q.len as usize)))
+    };
+    drop(ring);
+    simk::retire(ring_fd);
+    pair
+}
+
 fn one_case(r: &mut Rng) -> Case {
     let family = r.below(4);
     let mut o = Obs { obs: Vec::new(), oracle: None };
@@ -603,6 +625,25 @@ fn one_case(r: &mut Rng) -> Case {
             o.obs.push(lens[0] as i128);
             if lens[0] != expect.len() {
                 o.fail(format!("after set_init the vector has {} bytes, {} were initialised", lens[0], expect.len()));
+            }
+            // The same buffer as an operation sees it (one case in four).
+            if r.chance(1, 4) {
+                let v2 = make_vec(len, cap);
+                let base2 = v2.as_ptr() as usize;
+                let exp = limit.map_or(cap - len, |l| l.min(cap - len));
+                let got = match limit {
+                    None => pair_of_a_read(v2),
+                    Some(l) => pair_of_a_read(BufMut::limit(v2, l)),
+                };
+                if let Some((addr, n)) = got {
+                    if n != exp || addr != base2 + len {
+                        o.fail(format!(
+                            "a read into this buffer asks the kernel for {n} bytes at base+{}, the buffer exposes {exp} writable bytes at base+{len} (limit {limit:?})",
+                            addr as i128 - base2 as i128
+                        ));
+                    }
+                    tags.push("pair-of-a-read-operation:checked".into());
+                }
             }
             tags.push("family:BufMut/Vec<u8>".into());
             tags.push(limit_tag(limit));
@@ -768,6 +809,7 @@ fn finish(family: &str, ty: &str, shapes: &[Shape], limit: Option<usize>, ops: V
 }
 
 pub fn run(args: &Args) -> i32 {
+    crate::simk::install();
     let n = args.n.unwrap_or(if args.thorough { 60_000 } else { 4_000 });
     let root = Rng::new(args.seed);
     let mut cases = Vec::with_capacity(n);
